@@ -62,11 +62,12 @@ class HistogramCollection(Container[Histogram1D], ObjectWithBinning):
         return len(self.histograms)
 
     def copy(self) -> "HistogramCollection":
-        # TODO: The binnings are probably not consistent in the copies
-        binning_copy = self.binning.copy()
+        # Every member keeps the binning object of its own copy (an adaptive one grows in place)
         histograms = [h.copy() for h in self.histograms]
-        for histogram in histograms:
-            histogram._binning = binning_copy
+        if not histograms:
+            return HistogramCollection(
+                binning=self.binning.copy(), title=self.title, name=self.name
+            )
         return HistogramCollection(*histograms, title=self.title, name=self.name)
 
     @property
